@@ -3,7 +3,6 @@
 package pfcp
 
 import (
-	"fmt"
 	"github.com/wmnsk/go-pfcp/ie"
 	"github.com/wmnsk/go-pfcp/message"
 
@@ -20,6 +19,8 @@ type zzOut struct {
 	b       []byte
 	sends   int
 	live    bool
+	id      string // the implementation's own id of the transaction
+	hasID   bool
 }
 
 func zzC09(depth int) {
@@ -59,6 +60,9 @@ func zzC09(depth int) {
 			zzAssert("C09.request.seq-distinct-from-outstanding", out[j].wire != h.seq)
 		}
 		zzAssert("C09.request.bookkeeping", len(l.s.txTrans) == i+1)
+		if tx := zzFindTx(l.s, zzAddr(si), out[i].counter); tx != nil {
+			out[i].id, out[i].hasID = tx.id, true
+		}
 	}
 	for step := 0; step < depth; step++ {
 		before := l.effects()
@@ -70,13 +74,17 @@ func zzC09(depth int) {
 			// the timer callback names the transaction by its id: peer address and counter value
 			// ... and it can only expire if the code armed (or re-armed) it; for a retired request the
 			// expiry models a callback that was already on its way when the transaction ended
-			tx, ok := l.s.txTrans[fmt.Sprintf("%s-%d", zzAddr(o.peer), l.s.txKeySeq(o.counter))]
-			armed := ok && tx.timer != nil
+			tx := zzFindTx(l.s, zzAddr(o.peer), o.counter)
+			armed := tx != nil && tx.timer != nil
 			if o.live {
 				zzAssert("C09.retry.timer-armed", armed)
 			}
-			if armed || !o.live {
-				l.expire(TX, zzAddr(o.peer), l.s.txKeySeq(o.counter))
+			if armed {
+				zzFireTimer(tx.timer) // the real timer; its callback names the transaction by its real id
+				zzYield()
+			} else if !o.live && o.hasID {
+				l.s.NotifyTransTimeout(TX, o.id)
+				zzYield()
 			}
 			after := l.effects()
 			zzAssert("C09.expiry.no-state-effect", after.sessions == before.sessions && after.calls == before.calls)
@@ -102,9 +110,9 @@ func zzC09(depth int) {
 			}
 		} else {
 			// a Session Report Response arrives from peer p with sequence q
-			p := nondetChoice("rsp-peer", 2)
+			p := nondetChoice("rsp-peer", 3) // peer A, peer B, or another endpoint on A's host (never a peer)
 			q := zzSeq24("rsp-seq")
-			rsp := message.NewSessionReportResponse(0, 0, uint64(p+1), q, 0, ie.NewCause(ie.CauseRequestAccepted))
+			rsp := message.NewSessionReportResponse(0, 0, uint64(p&1+1), q, 0, ie.NewCause(ie.CauseRequestAccepted))
 			l.feed(zzMarshal(rsp), zzAddr(p))
 			after := l.effects()
 			zzAssert("C09.response.no-state-effect", after.sessions == before.sessions && after.calls == before.calls && after.sent == before.sent)
@@ -129,17 +137,6 @@ func zzC09(depth int) {
 	zzCover("C09.done")
 }
 
-// txKeySeq: the sequence value the transaction id is built from (the counter value the
-// transaction was created with). Kept separate so that the oracle does not depend on
-// how the implementation reduces the counter.
-func (s *PfcpServer) txKeySeq(counter uint32) uint32 {
-	for _, tx := range s.txTrans {
-		if tx.seq&0xffffff == counter&0xffffff {
-			return tx.seq
-		}
-	}
-	return counter
-}
 
 func ZZ_C09_Loop() { zzC09(3 + zzTier()) }
 
@@ -187,9 +184,8 @@ func zzC09Crossed() {
 	fired := zzFireTimer(tx.timer)
 	zzAssert("C09.crossed.timer-armed", fired)
 	rsp := message.NewSessionReportResponse(0, 0, ss.LocalID, h.seq, 0, ie.NewCause(ie.CauseRequestAccepted))
-	trID := fmt.Sprintf("%s-%d", zzAddrA, rsp.Sequence())
 	handleRsp := func() {
-		if t, ok := s.txTrans[trID]; ok {
+		if t := zzFindTx(s, zzAddrA, rsp.Sequence()); t != nil {
 			req := t.recv(rsp)
 			_ = s.rspDispacher(rsp, zzAddrA, req)
 		}
